@@ -131,9 +131,9 @@ Definition d_sub_spec (hs : bool) (n : nat) (ops : list (@dop Z)) := sub_spec fa
 Definition u_sub_spec (hs : bool) (n : nat) (ops : list (@uop Z)) := sub_spec true hs (gsfinal u_rejected_code uspec_step (s_init n) ops).
 (* ---- C11 / C12 / C19: path searches on the final graph of a history ---- *)
 Definition d_path_case (v : variant) (once : bool) (n : nat) (ops : list (@dop Z)) (s t : nat) :=
-  match gfinal (step false v) (init n) ops with None => [] | Some g => path_case (v_force_checks v) once 5000 (adj g) s t end.
+  match gfinal (step false v) (init n) ops with None => [] | Some g => path_case (v_force_checks v) once (path_fuel (adj g) s) (adj g) s t end.
 Definition u_path_case (v : variant) (once : bool) (n : nat) (ops : list (@uop Z)) (s t : nat) :=
-  match gfinal (ustep false v) (init n) ops with None => [] | Some g => path_case (v_force_checks v) once 5000 (adj g) s t end.
+  match gfinal (ustep false v) (init n) ops with None => [] | Some g => path_case (v_force_checks v) once (path_fuel (adj g) s) (adj g) s t end.
 Definition d_path_spec (v : variant) (n : nat) (ops : list (@dop Z)) (s t : nat) (im : path_impl) :=
   match gfinal (step false v) (init n) ops with None => [] | Some g => path_spec (adj g) s t im end.
 Definition u_path_spec (v : variant) (n : nat) (ops : list (@uop Z)) (s t : nat) (im : path_impl) :=
